@@ -13,7 +13,7 @@ from ..engine import Space
 PROPERTY = "C20"
 LEVEL = "model_checking"
 VARIANTS = ["fast", "tsan"]
-RULE = ("pool of 28 programs (4 of them for VMs with different operator registrations); (a) each twice; (b) all ordered pairs x {Q's VM destroyed, alive}; (c) controlled two-thread exploration for Q in the "
+RULE = ("pool of 31 programs (4 of them for VMs with different operator registrations, 2 with different config trees loaded); (a) each twice; (b) all ordered pairs x {Q's VM destroyed, alive, both VMs created and configured before either runs}; (c) controlled two-thread exploration for Q in the "
         "state-touching subset x all P with <=1 (quick) / <=2 (thorough) preemptions at instruction boundaries; TSan free-running over a pair "
         "subset; states = scheduling points / VM runs, transitions = executions; non-trivial = pair with Q != P")
 ASSUMPTIONS = [
@@ -60,17 +60,37 @@ POOL["hashmap-object-keys"] = ('private _m = createHashMap; { _m set [_x, _forEa
                                '"Land_Test" createVehicle [2,0,0], "Land_Test" createVehicle [3,0,0], createGroup west, createGroup east, createGroup civilian]; '
                                'diag_log str [keys _m, str _m, (keys _m) apply { _m get _x }]')
 POOL["eval-macro"] = 'diag_log str [__EVAL(1/8), __EVAL(1/3), __EVAL(100000 * 3)]'
+# config trees belong to the instance: the same class names at different positions (container ids) in two instances
+CFG_A = 'class IsoCfg { v = 1; class Sub { w = 10; }; class Kid : Sub { k = 11; }; }; class Other { v = 2; };'
+CFG_B = 'class Pad0 { class Pad1 { p = 0; }; }; class Other { v = 7; class Sub { w = 70; }; }; class IsoCfg { v = 3; class Sub { w = 30; x = 31; }; class Kid : Sub { k = 33; }; };'
+CFG_LOOKUP = ('diag_log str [getNumber (configFile >> "IsoCfg" >> "v"), getNumber (configFile >> "IsoCfg" >> "Sub" >> "w"), getNumber (configFile >> "IsoCfg" >> "Kid" >> "w"), '
+              'getNumber (configFile >> "IsoCfg" >> "Kid" >> "k"), getNumber (configFile >> "Other" >> "v"), isClass (configFile >> "Other" >> "Sub"), isClass (configFile >> "Pad0"), '
+              'isNumber (configFile >> "IsoCfg" >> "Sub" >> "x"), count configFile, configName inheritsFrom (configFile >> "IsoCfg" >> "Kid")]')
+POOL["config-lookup-a"] = CFG_LOOKUP
+POOL["config-lookup-b"] = CFG_LOOKUP
+POOL["configparse"] = ('private _c = configparse__ "class Other { v = 5; }; class IsoCfg { v = 6; class Sub { w = 60; }; };"; '
+                       'diag_log str [getNumber (_c >> "IsoCfg" >> "v"), getNumber (_c >> "IsoCfg" >> "Sub" >> "w"), isClass (configFile >> "IsoCfg")]')
+POOL_CFG = {"config-lookup-a": CFG_A, "config-lookup-b": CFG_B}
 OPSET = {"words-are-variables": "basic", "synth-words-are-operators": "synth"}    # default: full
 NAMES = list(POOL)
-STATEFUL = ["tofixed", "counter", "define", "types", "words-are-operators", "synth-words-are-operators", "globals-set", "groups-many", "marker", "error"]
+STATEFUL = ["tofixed", "counter", "define", "types", "words-are-operators", "synth-words-are-operators", "config-lookup-a", "globals-set", "groups-many", "marker", "error", "configparse"]
 
 
-def run_vm_sequence(ws, seq):
-    """seq: list of (program name, keep_alive) run one after another in fresh VMs of ONE process; returns per-VM logs."""
+def run_vm_sequence(ws, seq, prepared=False):
+    """seq: list of (program name, keep_alive) run one after another in fresh VMs of ONE process; returns per-VM logs.
+    prepared: all VMs are created and their configs loaded first, then the programs run in order."""
     steps = []
-    for i, (name, keep) in enumerate(seq):
+    def create(i, name):
         o = OPSET.get(name, "full")
         steps.append({"op": "vm", "id": i, "ops": "full" if o == "synth" else o, "synth": o == "synth"})
+        if name in POOL_CFG:
+            steps.append({"op": "config", "id": i, "text": POOL_CFG[name]})
+    if prepared:
+        for i, (name, keep) in enumerate(seq):
+            create(i, name)
+    for i, (name, keep) in enumerate(seq):
+        if not prepared:
+            create(i, name)
         steps.append({"op": "sqf", "id": i, "text": POOL[name], "preprocess": True, "path": "p.sqf"})
         steps.append({"op": "exec", "id": i, "action": "start"})
         steps.append({"op": "exec", "id": i, "action": "abort"})
@@ -101,6 +121,7 @@ def gen_pairs():
     for q, p in itertools.product(NAMES, repeat=2):
         yield ["after-destroyed", q, p]
         yield ["after-alive", q, p]
+        yield ["both-prepared", q, p]      # both instances exist (configs loaded) before either program runs
 
 
 def check_pair(ws, case):
@@ -115,7 +136,7 @@ def check_pair(ws, case):
         if again != base:
             return [("C20|nondeterministic|%s" % p, "program %s gives %r and then %r in a fresh process" % (p, base[:3], (again or [])[:3]), None, case)], info
         return [], info
-    logs, r = run_vm_sequence(ws, [(q, mode == "after-alive"), (p, False)])
+    logs, r = run_vm_sequence(ws, [(q, mode != "after-destroyed"), (p, False)], prepared=(mode == "both-prepared"))
     if logs is None:
         return [("C20|%s|q=%s|crash" % (mode, q), "Q=%s then P=%s: %s" % (q, p, r.get("kind", r["outcome"])), None, case)], info
     got = logs.get(1, [])
@@ -134,7 +155,7 @@ def gen_conc(qs):
 
 def check_conc(ws, case, bound=1):
     q, p = case
-    r = ws.call({"mode": "mt", "fork": True, "timeout_ms": 240000, "what": "isolation", "p": POOL[p], "q": POOL[q], "p_ops": OPSET.get(p, "full"), "q_ops": OPSET.get(q, "full"), "bound": bound, "max_executions": 3000}, variant="fast")
+    r = ws.call({"mode": "mt", "fork": True, "timeout_ms": 240000, "what": "isolation", "p": POOL[p], "q": POOL[q], "p_ops": OPSET.get(p, "full"), "q_ops": OPSET.get(q, "full"), "p_cfg": POOL_CFG.get(p, ""), "q_cfg": POOL_CFG.get(q, ""), "bound": bound, "max_executions": 3000}, variant="fast")
     if r["outcome"] != "ok":
         return [("C20|concurrent|q=%s|%s" % (q, r.get("kind", r["outcome"])), "P=%s beside Q=%s: %s" % (p, q, r.get("kind", r["outcome"])), None, case)], {"n": 1}
     res = r["result"]
@@ -150,15 +171,15 @@ def check_conc2(ws, case):
 
 
 def gen_tsan():
-    for q in ["tofixed", "counter", "types", "groups-many", "hashmap", "format", "words-are-operators", "synth-words-are-operators"]:
-        for p in ["numbers", "counter", "types", "group", "hashmap", "hashmap-object-keys", "define", "eval-macro", "words-are-variables", "synth-words-are-variables"]:
+    for q in ["tofixed", "counter", "types", "groups-many", "hashmap", "format", "words-are-operators", "synth-words-are-operators", "config-lookup-a"]:
+        for p in ["numbers", "counter", "types", "group", "hashmap", "hashmap-object-keys", "define", "eval-macro", "words-are-variables", "synth-words-are-variables", "config-lookup-b", "config-read"]:
             yield [q, p]
 
 
 def check_tsan(ws, case):
     q, p = case
     from .c19 import parse_tsan
-    r = ws.call({"mode": "mt", "fork": True, "timeout_ms": 120000, "what": "isolation-free", "p": POOL[p], "q": POOL[q], "p_ops": OPSET.get(p, "full"), "q_ops": OPSET.get(q, "full"), "repeat": 5}, variant="tsan")
+    r = ws.call({"mode": "mt", "fork": True, "timeout_ms": 120000, "what": "isolation-free", "p": POOL[p], "q": POOL[q], "p_ops": OPSET.get(p, "full"), "q_ops": OPSET.get(q, "full"), "p_cfg": POOL_CFG.get(p, ""), "q_cfg": POOL_CFG.get(q, ""), "repeat": 5}, variant="tsan")
     info = {"n": 1, "nontrivial": 1, "states": 5, "transitions": 5, "executions": 5}
     err = r.get("stderr", "")
     if r["outcome"] != "ok" and "ThreadSanitizer" not in err:
